@@ -147,7 +147,9 @@ def r2b_copy_discipline(ctx):
         for p in ctx.paths(b):
             if p[-1][0] != "loop":
                 continue
-            carried = p[-1][2].get("pos")
+            # the running output position: the carried value built from its own previous value (any name)
+            own = [v for nm, v in p[-1][2].items() if v[0] == "bin" and has_subterm(v, lambda s2, nm=nm: s2[0] == "phi" and s2[3] == nm)]
+            carried = own[0] if len(own) == 1 else p[-1][2].get("pos")
             if carried is None:
                 continue
             loops += 1
@@ -247,9 +249,9 @@ def r4_pairing(ctx):
         okl = False
         for p in paths:
             if p[-1][0] == "loop":
-                le = p[-1][2].get("last_end")
-                if le is not None and le[0] == "bin" and le[1] == "Add" and le[3] == ("c", "usize", 1) and has_subterm(le[2], lambda s: call_is(s, "next")):
-                    okl = True
+                for le in p[-1][2].values():
+                    if le[0] == "bin" and le[1] == "Add" and le[3] == ("c", "usize", 1) and has_subterm(le[2], lambda s: call_is(s, "next")):
+                        okl = True
         ctx.ob("R4", "unescape_with:resume-after-semicolon", okl, "after an entity the copy position is the index of ';' + 1", config=cfg)
         # unknown entity -> error, never copied through
         unk = sum(1 for p in paths if ret_of(p) is not None and describe_ret(ret_of(p), 2)[0][:2] == ("Err", "UnrecognizedEntity"))
@@ -338,7 +340,7 @@ def r6_unescape_copies(ctx):
             pushes = [c for c in calls(p) if name_is(c[2], "push_str", "push", "extend_from_slice", "write_str")]
             if ends(p) == "loop":
                 nloop += 1
-                car = p[-1][2].get("last_end")
+                car = None
                 amp = [c for c in calls(p) if name_is(c[2], "find")]
                 semi = [c for c in calls(p) if name_is(c[2], "next") and not isinstance(c[1], tuple)]
                 ok = bool(pushes) and bool(amp) and bool(semi)
@@ -347,9 +349,11 @@ def r6_unescape_copies(ctx):
                     startp = ("call", amp[0][1], amp[0][2], amp[0][3])
                     endp = ("call", semi[-1][1], semi[-1][2], semi[-1][3])
                     a0 = pushes[0][3][1]
-                    gap = has_subterm(a0, lambda s2: call_is(s2, "index") and s2[3][1][0] == "agg" and s2[3][1][2] == "Range"
-                                      and strip_wrappers(s2[3][1][3][0])[0] == "phi" and strip_wrappers(s2[3][1][3][0])[3] == "last_end"
-                                      and has_subterm(s2[3][1][3][1], lambda s3: s3 == startp))
+                    gaps = [s2 for s2 in sym.subterms(a0) if call_is(s2, "index") and s2[3][1][0] == "agg" and s2[3][1][2] == "Range"
+                            and strip_wrappers(s2[3][1][3][0])[0] == "phi" and has_subterm(s2[3][1][3][1], lambda s3: s3 == startp)]
+                    gap = bool(gaps)
+                    if gap:
+                        car = p[-1][2].get(strip_wrappers(gaps[0][3][1][3][0])[3])
                     nxt = car is not None and car[0] == "bin" and car[1] == "Add" and strip_wrappers(car[3]) == ("c", "usize", 1) and has_subterm(car[2], lambda s3: s3 == endp)
                     ok = gap and nxt and len(pushes) == 2
                 ctx.ob("R6", "unescape_with:loop:gap-then-replacement", ok, "each resolved reference: push raw[last_end..start], push the replacement, last_end = end + 1 (pushes %d, gap pushed %s, last_end %s)" % (len(pushes), gap, sym.show(car, 2) if car is not None else None), config=cfg)
@@ -362,7 +366,7 @@ def r6_unescape_copies(ctx):
                     frm = strip_wrappers(g[-1][3][1][3][0])
                     d = decision_on(p, lambda t: t[0] == "discr" and t[1] == G)
                     pushed = any(has_subterm(c[3][1], lambda s2: s2 == G) for c in pushes)
-                    from_last = frm[0] == "phi" and frm[3] == "last_end" or frm == ("c", "usize", 0)
+                    from_last = frm[0] == "phi" or frm == ("c", "usize", 0)
                     tail_ok = from_last and (pushed if d == 1 else d is not None)
                 ctx.ob("R6", "unescape_with:owned:tail", tail_ok, "the text after the last reference, raw[last_end..], is appended before returning the owned result", config=cfg)
         ctx.floor("R6", "resolved-reference back edges of unescape_with", nloop, 2, config=cfg)
